@@ -74,7 +74,46 @@ def check_datatype_languages():
             # converter and the reference model (a violation only if they disagree on it)
             out.setdefault('replay', []).append(({'dt': name, 'len': len(wit)}, {'s': wit}))
         out['queries'].append(q)
+    check_ipaddr_language(out)
     return out
+
+
+def ipaddr_reference_no_colon():
+    """dotted quad (octets 0..255, at most three digits, leading zeros allowed) or host name of at least
+    two characters ([A-Za-z_] [-A-Za-z0-9_.]* [-A-Za-z0-9_]); what ipaddr-or-hostname accepts among the
+    strings WITHOUT a colon (those with a colon are IPv6 candidates and go through inet_pton)"""
+    A, D = _A(), _D()
+    octet = z3.Union(D, z3.Concat(D, D), z3.Concat(z3.Range('0', '1'), D, D),
+                     z3.Concat(_re('2'), z3.Range('0', '4'), D), z3.Concat(_re('25'), z3.Range('0', '5')))
+    dot = _re('.')
+    quad = z3.Concat(octet, dot, octet, dot, octet, dot, octet)
+    hc = z3.Union(A, D, _re('-'), _re('_'))
+    host = z3.Concat(z3.Union(A, _re('_')), z3.Star(z3.Union(hc, dot)), hc)
+    return z3.Union(quad, host)
+
+
+def check_ipaddr_language(out):
+    """the live ipaddr-or-hostname pattern, restricted to strings without ':' , against the reference;
+    language equality is the right notion here because among colon-free strings the first alternative
+    is anchored and the last one is the only other that can match at all (full-match is then
+    independent of Python's alternation priority)"""
+    from ZConfig import datatypes as dt
+    live = dt.stock_datatypes['ipaddr-or-hostname']._rx.pattern
+    anything = z3.Full(z3.ReSort(z3.StringSort()))
+    nocolon = z3.Complement(z3.Concat(anything, _re(':'), anything))
+    try:
+        r, wit, secs = equal_language(z3.Intersect(to_z3_regex(live), nocolon), ipaddr_reference_no_colon())
+    except Exception as e:
+        r, wit, secs = 'error: %s' % e, None, 0.0
+    out['obligations'] += 1
+    q = {'datatype': 'ipaddr-or-hostname (strings without a colon)', 'live_pattern': live, 'result': r,
+         'seconds': round(secs, 3)}
+    if r == 'unsat':
+        out['discharged'] += 1
+    elif r == 'sat':
+        q['witness'] = wit
+        out.setdefault('replay', []).append(({'dt': 'ipaddr-or-hostname', 'len': len(wit)}, {'s': wit}))
+    out['queries'].append(q)
 
 
 def check_named(live_pattern, ref):
